@@ -55,7 +55,8 @@ REQUIRED_COUNTERS = ['tables_compared', 'scripted_generate_calls',
                      'models_reused_across_codes',
                      'models_sharing_label_and_code_objects',
                      'tables_from_integer_typed_parameters',
-                     'tables_on_user_defined_codes']
+                     'tables_on_user_defined_codes',
+                     'bposd_priors_in_force_after_rate_change']
 
 OPTIONS = 'IXYZ'
 
@@ -330,9 +331,10 @@ def install_proxies(rec):
             return self._real.update_channel_probs(v)
 
         def decode(self, s):
+            in_force = np.array(self._real.channel_probs, dtype=float)
             r = self._real.decode(s)
             rec.events.append(('bposd-decode', self._H, np.array(s),
-                               np.array(r)))
+                               np.array(r), in_force))
             return r
 
         def __getattr__(self, name):
@@ -474,6 +476,40 @@ def check_priors(out, em, code, cls, G, desc, mech, rng):
                                 'non-CSS channel probs are not '
                                 '[z-flip | x-flip] marginals', desc)
                 init = [x for x in rec.events if x[0] == 'bposd-init']
+                if not cu:
+                    # the decoder is kept and its error rate changed (a sweep
+                    # re-using one object): the priors in force at the next
+                    # decode are those of the new rate
+                    p2 = p / 2
+                    dec.error_rate = p2
+                    rec.events.clear()
+                    dec.decode(s)
+                    T2 = ref_channel(code, cls, tuple(desc['direction']), p2,
+                                     desc.get('noise_deformation'),
+                                     desc.get('kwargs') or {})
+                    q2x = T2[:, 1] + T2[:, 2]
+                    q2z = T2[:, 3] + T2[:, 2]
+                    for ev in [x for x in rec.events
+                               if x[0] == 'bposd-decode']:
+                        H, v = ev[1], ev[4]
+                        out.count('bposd_priors_in_force_after_rate_change')
+                        if code.is_css:
+                            on_hz = same_matrix(H, code.Hz)
+                            on_hx = same_matrix(H, code.Hx)
+                            if on_hz == on_hx:
+                                continue
+                            q = q2x if on_hz else q2z
+                        else:
+                            q = np.concatenate([q2z, q2x])
+                        if v.shape != q.shape or \
+                                np.max(np.abs(v - q)) > 1e-15:
+                            out.violation(
+                                f'{mech}/bposd-prior/after-error-rate-change',
+                                f'decoder reused after error_rate {p} -> '
+                                f'{p2}: the priors in force at decode time '
+                                'are not the flip marginals of the new rate',
+                                desc)
+                            break
     except Exception as e:
         where = panqec_frame(e)
         if where is None:
